@@ -445,7 +445,14 @@ def c17(run):
     sq, smeta = [], []
     for _ in range(run.n(400, 8000)):
         r = rng.random()
-        if r < 0.35:
+        if r < 0.12:
+            # 14..24 plain words: integers around and beyond 2^53 / 2^64, where every shortcut rounds differently
+            words = [('w', ''.join(rng.choice('abcdefghij') for _ in range(rng.randint(1, 9)))) for _ in range(rng.randint(14, 24))]
+            if rng.random() < 0.5:
+                stmt = ('push', v(sv('qs')), ('plit', words)); obs = 'say qs at 0\n'
+            else:
+                stmt = ('pnum', ('lid', sv('zz')), ('plit', words)); obs = 'say zz\n'
+        elif r < 0.35:
             words = g.poetic_words()
             stmt = ('push', v(sv('qs')), ('plit', words)); obs = 'say qs at 0\n'
         elif r < 0.55:
